@@ -35,7 +35,7 @@ def corpus(tier, seed):
         for reuse in (False, True):
             for strip in (False, True):
                 items.append((('nl', nl.to_json(), style), reuse, strip))
-    for r in netlist.G4 + (netlist.G4_BIG if tier == 'thorough' else []):
+    for r in netlist.G4 + netlist.G4_LEAN + ((netlist.G4_BIG + netlist.G4_BIG_LEAN) if tier == 'thorough' else []):
         for reuse in (False, True):
             for strip in (False, True):
                 items.append((r, reuse, strip))
@@ -128,6 +128,54 @@ def wave_perm_check(rep, c, name, reuse, strip):
             rep.violation('schedule/permutation-changes-result', f'{name} c_reuse={reuse} strip_forks={strip}: timing results differ under {vn}', {'mode': 'waveperm', 'variant': vn})
 
 
+class GuardedAbuf(np.ndarray):
+    """accumulation buffer that records writes which do not go through cuda.atomic.add (threads of one launch run concurrently on a GPU:
+    a plain read-modify-write of a shared accumulator is a data race under some interleaving)"""
+    plain_writes = 0
+    privileged = False
+
+    def __setitem__(self, k, v):
+        if not GuardedAbuf.privileged: GuardedAbuf.plain_writes += 1
+        super().__setitem__(k, v)
+
+
+def atomic_check(rep):
+    """GPU accumulation of switching activity must be indivisible: every update of abuf inside a kernel launch goes through cuda.atomic.add"""
+    nl = netlist.NL('acc', [('a', 'in'), ('b', 'in'), ('z', 'out'), ('y', 'out')], [('g1', 'XOR2', ['x'], ['a', 'b']), ('g2', 'INV1', ['z'], ['x']), ('g3', 'AND2', ['y'], ['x', 'a'])])
+    c = netlist.build(nl, 'verilog')
+    a_ctrl = np.zeros((len(c.lines) + 3, 3), dtype=np.int32); a_ctrl[:, 0] = -1
+    for l in range(len(c.lines)): a_ctrl[l] = [l % 2, 3 + l, 50 + l]            # two shared accumulator rows
+    rng = np.random.default_rng(3)
+    d = (rng.integers(1, 30, (1, len(c.lines), 2, 2)) / 8.0).astype(np.float32)
+    res = []
+    atomic_cls = kyupy.cuda.atomic
+    orig_add = atomic_cls.add
+    for cls in (WaveSim, WaveSimCuda):
+        w = cls(c, d, sims=3, c_caps=8, a_ctrl=a_ctrl)
+        w.s[0, :2] = [[0, 1, 0], [1, 1, 0]]; w.s[2, :2] = [[1, 0, 0], [0, 1, 1]]; w.s[1, :2] = [[1, 2, 3], [2, 1, 5]]
+        if cls is WaveSimCuda:
+            g = np.asarray(w.abuf).view(GuardedAbuf)
+            w.abuf = g
+            GuardedAbuf.plain_writes = 0
+
+            def guarded_add(array, idx, value):
+                GuardedAbuf.privileged = True
+                try: orig_add(array, idx, value)
+                finally: GuardedAbuf.privileged = False
+            atomic_cls.add = staticmethod(guarded_add)
+        try:
+            w.s_to_c(); w.c_prop()
+        finally:
+            atomic_cls.add = orig_add
+        res.append(np.array(w.abuf))
+    rep.counts['obligations'] += 2
+    if GuardedAbuf.plain_writes:
+        rep.violation('schedule/non-atomic-accumulation', f'wave_eval_gpu updates the shared accumulation buffer {GuardedAbuf.plain_writes} times without cuda.atomic.add: concurrent (sim, op) threads of a level can lose updates', {'mode': 'atomic'})
+    else: rep.counts['discharged'] += 1
+    if not np.array_equal(res[0], res[1]): rep.violation('schedule/non-atomic-accumulation', f'accumulated switching activity differs between CPU {res[0].tolist()} and GPU kernel {res[1].tolist()}', {'mode': 'atomic'})
+    else: rep.counts['discharged'] += 1
+
+
 def check_item(item):
     recipe, reuse, strip = item
     rep = common.Report()
@@ -177,6 +225,9 @@ def replay(data):
             s.s_to_c(); s.c_prop(); s.c_to_s(); res.append(s.s[1].copy())
         diff = not np.array_equal(res[0][..., 0] & 7, res[1][..., 0] & 7)
         return diff, f'executing the ops of every level in {data["perm"]} order changes the captured values'
+    if data['mode'] == 'atomic':
+        r = common.Report(); atomic_check(r)
+        return bool(r.violations), r.violations[0]['what'] if r.violations else 'ok'
     if data['mode'] != 'tables': return False, 'not replayable from file'
     so = SimOps(c, c_caps=data['caps'], c_caps_min=data['cmin'], c_reuse=data['reuse'], strip_forks=data['strip'])
     tb = tables.Tables(so, c, data['strip'])
@@ -205,6 +256,7 @@ def replay(data):
 def run(tier, seed):
     items = corpus(tier, seed)
     rep = common.pmap(check_item, sorted(items, key=lambda it: -(500 if it[0][0] != 'nl' else len(it[0][1]['gates']))), chunksize=1)
+    atomic_check(rep)
     # reachability twin: merging two consecutive levels of a chain must be reported by Q1/Q2
     nl = netlist.NL('twin', [('a', 'in'), ('z', 'out')], [('g0', 'INV1', ['x'], ['a']), ('g1', 'INV1', ['y'], ['x']), ('g2', 'INV1', ['z'], ['y'])])
     c = netlist.build(nl, 'lean')
